@@ -215,19 +215,34 @@ func checkC11(w *World) {
 	if h == nil {
 		w.check(P, "R11.1", "function-call handler", 0, false, "no handler")
 	} else {
+		// the two lookups: in the handler, or in a helper of the package the handler calls for the resolution
 		var userL, builtinL *ssa.Lookup
-		allInstrs(h.Fn, func(in ssa.Instruction) {
-			lk, ok := in.(*ssa.Lookup)
-			if !ok {
-				return
+		var lookupFn *ssa.Function
+		lcands := []*ssa.Function{h.Fn}
+		for g := range staticReach(h.Fn, func(x *ssa.Function) bool { return fnPkgKey(x) == "exec" && x != r.ExecContext }) {
+			if g != h.Fn && fnPkgKey(g) == "exec" {
+				lcands = append(lcands, g)
 			}
-			switch settingsFieldName(lk.X) {
-			case "FunctionLibrary":
-				userL = lk
-			case "builtinFunctions":
-				builtinL = lk
+		}
+		sortFuncs(lcands[1:])
+		for _, g := range lcands {
+			var u, b *ssa.Lookup
+			allInstrs(g, func(in ssa.Instruction) {
+				lk, ok := in.(*ssa.Lookup)
+				if !ok {
+					return
+				}
+				switch settingsFieldName(lk.X) {
+				case "FunctionLibrary":
+					u = lk
+				case "builtinFunctions":
+					b = lk
+				}
+			})
+			if u != nil && b != nil && lookupFn == nil {
+				userL, builtinL, lookupFn = u, b, g
 			}
-		})
+		}
 		if userL == nil || builtinL == nil {
 			w.undecided(P, "R11.1", "function lookup", h.Fn.Pos(), fmt.Sprintf("lookups found: user library %v, builtin table %v", userL != nil, builtinL != nil))
 		} else {
@@ -240,7 +255,23 @@ func checkC11(w *World) {
 			w.check(P, "R11.1", "user library before builtins", builtinL.Pos(), guarded, fmt.Sprintf("the builtin table is consulted only when the user library has no function of that name: %v", guarded))
 			sameKey := userL.Index == builtinL.Index
 			keyOrigin := ""
-			if ex, ok := userL.Index.(*ssa.Extract); ok {
+			keyV := userL.Index
+			var lookupCall *ssa.Call
+			if lookupFn != h.Fn {
+				allInstrs(h.Fn, func(in ssa.Instruction) {
+					if c, ok := in.(*ssa.Call); ok && staticCallee(c) == lookupFn {
+						lookupCall = c
+					}
+				})
+				if p, ok := keyV.(*ssa.Parameter); ok && lookupCall != nil {
+					for i, x := range lookupFn.Params {
+						if x == p && i < len(lookupCall.Call.Args) {
+							keyV = lookupCall.Call.Args[i]
+						}
+					}
+				}
+			}
+			if ex, ok := keyV.(*ssa.Extract); ok {
 				if c, ok := ex.Tuple.(*ssa.Call); ok && staticCallee(c) != nil && staticCallee(c).Name() == "GetQName" && len(c.Call.Args) == 2 {
 					keyOrigin = "GetQName(" + qnameTextOrigin(c.Call.Args[0]) + "," + settingsFieldName(c.Call.Args[1]) + ")"
 				}
@@ -257,6 +288,25 @@ func checkC11(w *World) {
 				fromBuiltin := sliceContains(c.Call.Value, func(v ssa.Value) bool { return v == ssa.Value(builtinL) })
 				if fromUser && fromBuiltin {
 					called = true
+				}
+				// resolution in a helper: what is called is what the helper returned, and the helper returns nothing
+				// but the two looked-up values
+				if lookupCall != nil && sliceContains(c.Call.Value, func(v ssa.Value) bool { return v == ssa.Value(lookupCall) }) {
+					onlyLookups := true
+					nret := 0
+					allInstrs(lookupFn, func(in2 ssa.Instruction) {
+						ret, ok := in2.(*ssa.Return)
+						if !ok || len(ret.Results) == 0 {
+							return
+						}
+						nret++
+						if !sliceContains(ret.Results[0], func(v ssa.Value) bool { return v == ssa.Value(userL) || v == ssa.Value(builtinL) }) {
+							onlyLookups = false
+						}
+					})
+					if onlyLookups && nret > 0 {
+						called = true
+					}
 				}
 			})
 			w.check(P, "R11.1", "the looked-up function is the one called", h.Fn.Pos(), called, fmt.Sprintf("%v", called))
@@ -502,6 +552,57 @@ func lookupFailsWithError(fn *ssa.Function, lk *ssa.Lookup) (bool, string) {
 	}) {
 		return true, "nil-tested; the failing branch returns an error"
 	}
+	// the helper hands the looked-up value back and every caller tests it
+	returned := false
+	allInstrs(fn, func(in ssa.Instruction) {
+		if ret, ok := in.(*ssa.Return); ok && len(ret.Results) >= 1 && sliceContains(ret.Results[0], func(v ssa.Value) bool { return cands[v] }) {
+			returned = true
+		}
+	})
+	if returned && theWorld != nil {
+		callers, tested := 0, 0
+		theWorld.forAllFuncs(fnPkgKey(fn), func(g *ssa.Function) {
+			allInstrs(g, func(in ssa.Instruction) {
+				c, ok := in.(*ssa.Call)
+				if !ok || staticCallee(c) != fn {
+					return
+				}
+				callers++
+				cc := map[ssa.Value]bool{c: true}
+				for _, rr := range referrers(c) {
+					if phi, ok := rr.(*ssa.Phi); ok {
+						cc[phi] = true
+					}
+					if ex, ok := rr.(*ssa.Extract); ok && ex.Index == 0 {
+						cc[ex] = true
+					}
+				}
+				found := false
+				allInstrs(g, func(in2 ssa.Instruction) {
+					ret, ok := in2.(*ssa.Return)
+					if !ok || len(ret.Results) == 0 {
+						return
+					}
+					last := ret.Results[len(ret.Results)-1]
+					if isNilConst(last) || !isErrorType(last.Type()) {
+						return
+					}
+					for _, a := range guardAtoms(ret.Block()) {
+						bo, ok := a.V.(*ssa.BinOp)
+						if ok && cc[bo.X] && isNilConst(bo.Y) && ((bo.Op == token.EQL && a.Pol) || (bo.Op == token.NEQ && !a.Pol)) {
+							found = true
+						}
+					}
+				})
+				if found {
+					tested++
+				}
+			})
+		})
+		if callers > 0 && callers == tested {
+			return true, "returned to the caller, which nil-tests it; the failing branch returns an error"
+		}
+	}
 	return false, "the looked-up value is used without a test whose failing branch returns an error"
 }
 
@@ -650,10 +751,126 @@ func (w *World) nameTestGuards(P string, f *Facts, r *Roles) {
 
 // functionArgsInOrder: the variadic argument of the dynamic call is a slice built by appending, in an
 // ascending loop over the gathered argument list, the result field of a context copy evaluated by the dispatcher.
+// functionArgsInOrder looks for the argument loop in the handler or in a helper of the package it was moved to.
 func (w *World) functionArgsInOrder(h *ssa.Function, r *Roles) (bool, string) {
+	cands := []*ssa.Function{h}
+	for g := range staticReach(h, func(x *ssa.Function) bool { return fnPkgKey(x) == "exec" && x != r.ExecContext }) {
+		if g != h && fnPkgKey(g) == "exec" {
+			cands = append(cands, g)
+		}
+	}
+	sortFuncs(cands[1:])
+	firstWhy := ""
+	for _, g := range cands {
+		ok, why := w.functionArgsInOrderIn(g, r)
+		if ok {
+			return true, why + " (in " + g.Name() + ")"
+		}
+		if firstWhy == "" || (g != h && !strings.HasPrefix(why, "arguments are not evaluated")) {
+			if firstWhy == "" || strings.HasPrefix(firstWhy, "arguments are not evaluated") {
+				firstWhy = why
+			}
+		}
+	}
+	return false, firstWhy
+}
+
+// independentEvaluator: e evaluates the expression designated by one of its parameters in a copy of its context
+// parameter and returns that copy's result: (index of the designating parameter, true).
+func (w *World) independentEvaluator(e *ssa.Function, r *Roles) (int, bool) {
+	evals := w.childEvals(e)
+	if len(evals) != 1 || evals[0].CopyCtx == nil {
+		return 0, false
+	}
+	ev := evals[0]
+	nx, ok := ev.Call.Call.Args[1].(*ssa.Call)
+	if !ok || len(nx.Call.Args) != 2 {
+		return 0, false
+	}
+	idx := -1
+	for i, p := range e.Params {
+		if nx.Call.Args[1] == ssa.Value(p) {
+			idx = i
+		}
+	}
+	if idx < 0 {
+		return 0, false
+	}
+	returnsCopy := false
+	allInstrs(e, func(in ssa.Instruction) {
+		ret, ok := in.(*ssa.Return)
+		if !ok || len(ret.Results) != 2 || !isNilConst(ret.Results[1]) {
+			return
+		}
+		if ld, ok := ret.Results[0].(*ssa.UnOp); ok {
+			if fa, ok := ld.X.(*ssa.FieldAddr); ok && fa.Field == r.CtxResultField && fa.X == ssa.Value(ev.CopyCtx) {
+				returnsCopy = true
+			}
+		}
+	})
+	return idx, returnsCopy
+}
+
+func (w *World) functionArgsInOrderIn(h *ssa.Function, r *Roles) (bool, string) {
+	loops := loopBlocks(h)
+	// helper form: the loop calls an independent evaluator on the loop element and appends what it returns
+	var helperOK, helperSeen bool
+	allInstrs(h, func(in ssa.Instruction) {
+		c, ok := in.(*ssa.Call)
+		if !ok || !loops[c.Block()] {
+			return
+		}
+		e := staticCallee(c)
+		if e == nil || fnPkgKey(e) != "exec" {
+			return
+		}
+		idx, ok := w.independentEvaluator(e, r)
+		if !ok || idx >= len(c.Call.Args) {
+			return
+		}
+		helperSeen = true
+		asc := false
+		if ld, ok := c.Call.Args[idx].(*ssa.UnOp); ok {
+			if ia, ok := ld.X.(*ssa.IndexAddr); ok && ascendingCounter(ia.Index) {
+				asc = true
+			}
+		}
+		appended := false
+		for _, rr := range referrers(c) {
+			ex, ok := rr.(*ssa.Extract)
+			if !ok || ex.Index != 0 {
+				continue
+			}
+			for _, r2 := range referrers(ex) {
+				if st, ok := r2.(*ssa.Store); ok && st.Val == ssa.Value(ex) {
+					if ia, ok := st.Addr.(*ssa.IndexAddr); ok {
+						if arr, ok := ia.X.(*ssa.Alloc); ok {
+							for _, r3 := range referrers(arr) {
+								if sl, ok := r3.(*ssa.Slice); ok {
+									for _, r4 := range referrers(sl) {
+										if ac, ok := r4.(*ssa.Call); ok {
+											if b, ok := ac.Call.Value.(*ssa.Builtin); ok && b.Name() == "append" && loops[ac.Block()] {
+												appended = true
+											}
+										}
+									}
+								}
+							}
+						}
+					}
+				}
+			}
+		}
+		if asc && appended {
+			helperOK = true
+		}
+	})
+	if helperOK {
+		return true, "every argument is evaluated by an independent evaluator (own copy of the context) in ascending order and its result appended"
+	}
+	_ = helperSeen
 	evals := w.childEvals(h)
 	var argEval *childEval
-	loops := loopBlocks(h)
 	for i := range evals {
 		if evals[i].CopyCtx != nil && loops[evals[i].Call.Block()] {
 			argEval = &evals[i]
